@@ -159,7 +159,9 @@ class SupervisorProxy:
         # publish the message to the supvisors instance
         # if the remote instance is not active, try to publish only TICK events
         # NOTE: the real instance state is used instead of the self.connected flag
-        if publication_type == PublicationHeaders.TICK or self.status.has_active_state():
+        # NOTE: a message may still be queued when the instance becomes ISOLATED (the proxy is only stopped
+        #       at the next push): nothing is sent to an ISOLATED instance, not even a TICK
+        if (publication_type == PublicationHeaders.TICK and not self.status.isolated) or self.status.has_active_state():
             message = self._get_origin(from_identifier), publication_message
             self.send_remote_comm_event(SUPVISORS_PUBLICATION, message)
 
